@@ -180,7 +180,27 @@ func CFGPackage(rng *rand.Rand, pkg string, n int) string {
 		b.WriteString("\n")
 	}
 	b.WriteString(selectFunc(rng, "Sel0"))
+	b.WriteString(deadPhiCycleFunc(rng, "Cyc0"))
 	return b.String()
+}
+
+// deadPhiCycleFunc returns a function in which a variable that was merged
+// before a loop is only copied to itself inside the loop: lifting creates a
+// cycle of phis that only refer to each other and to the merge.
+func deadPhiCycleFunc(rng *rand.Rand, name string) string {
+	typ, v1, v2 := "any", "any(1)", "any(\"\")"
+	if rng.IntN(2) == 0 {
+		typ, v1, v2 = "int", "1", "a"
+	}
+	merge := "\tswitch a & 7 {\n\tcase 5:\n\t\tv = " + v2 + "\n\t}\n"
+	if rng.IntN(2) == 0 {
+		merge = "\tif a > 3 {\n\t\tv = " + v2 + "\n\t}\n"
+	}
+	body := "\t\tif !d {\n\t\t\tcontinue\n\t\t}\n\t\tv = v\n"
+	if rng.IntN(3) == 0 {
+		body = "\t\tif d {\n\t\t\tv = v\n\t\t}\n"
+	}
+	return fmt.Sprintf("func %s(a int, d bool) int {\n\tvar v %s = %s\n%s\tfor i := 0; i < a&3; i++ {\n%s\t}\n\treturn a\n}\n", name, typ, v1, merge, body)
 }
 
 // selectFunc returns a function around one select statement whose comm clauses
